@@ -1,5 +1,7 @@
 (* C15 driver: replays op scripts (same syntax as harness/c15_life.cpp) on the extracted protocol model
-   (core model + checkpoint-vertex layer).  argv: fk fl [fc] (0/1: which code variant, see LifecycleModel.v).
+   (core model + checkpoint-vertex layer + connection-pin layer).  argv: fk fl [fc] [fp] (0/1: which code variant, see
+   LifecycleModel.v / LifecyclePinModel.v).  Pin handles: the pins the harness creates implicitly get the handles 2*id
+   (S: centre pin, J: the junction's own pin) and 2*id+1 (S with npins >= 2); the generator numbers explicit pins from 200.
    Histories are separated by a line "====". *)
 open C15_model
 
@@ -21,7 +23,8 @@ let canon_queue q =
     | AConn (c, ups) -> Printf.sprintf "CC:%d:%d" (int_of_nat c) (List.length ups) in
   List.sort compare (List.map item q)
 
-let dump line x =
+let dump line px =
+  let x = xs px in
   let s = core x in
   if not (alive s) then Printf.printf "%s | destroyed\n" line
   else begin
@@ -30,48 +33,60 @@ let dump line x =
     let owners = List.sort_uniq compare (List.map (fun (c, _) -> int_of_nat c) (cpv x)) in
     let cps = List.filter (fun (_, n) -> n > 0)
         (List.map (fun c -> (c, int_of_nat (live_cp x (nat_of_int c)))) owners) in
-    Printf.printf "%s | obst%s | conns%s | q%s | cp%s\n" line
+    let pins = List.filter (fun (_, n) -> n > 0)
+        (List.map (fun o -> (o, int_of_nat (pin_count px (nat_of_int o)))) (ints (active s))) in
+    Printf.printf "%s | obst%s | conns%s | q%s | cp%s | pins%s | pv %d\n" line
       (String.concat "" (List.map (fun i -> " " ^ string_of_int i) (ints (active s))))
       (String.concat "" (List.map (fun i -> " " ^ string_of_int i) (ints (aconns s))))
       (String.concat "" (List.map (fun x -> " " ^ x) (canon_queue (queue s))))
       (String.concat "" (List.map (fun (c, n) -> Printf.sprintf " %d:%d" c n) cps))
+      (String.concat "" (List.map (fun (o, n) -> Printf.sprintf " %d:%d" o n) pins))
+      (int_of_nat (live_pins px))
   end
 
 let () =
   let fk = Sys.argv.(1) = "1" and fl = Sys.argv.(2) = "1" in
   let fc = if Array.length Sys.argv > 3 then Sys.argv.(3) = "1" else true in
-  let st = ref (xinit true false) in
+  let fp = if Array.length Sys.argv > 4 then Sys.argv.(4) = "1" else true in
+  let st = ref (pinit true false) in
   let illegal = ref 0 in
   let finish () =
-    let s = core !st in
-    Printf.printf "END bad%s%s | leaked%s%s | illegal %d\n"
+    let s = core (xs !st) in
+    Printf.printf "END bad%s%s%s | leaked%s%s%s | illegal %d\n"
       (String.concat "" (List.map (fun i -> " " ^ string_of_int (int_of_nat i)) (bad s)))
-      (String.concat "" (List.map (fun i -> " v" ^ string_of_int (int_of_nat i)) (vbad !st)))
+      (String.concat "" (List.map (fun i -> " v" ^ string_of_int (int_of_nat i)) (vbad (xs !st))))
+      (String.concat "" (List.map (fun i -> " p" ^ string_of_int (int_of_nat i)) (pbad !st)))
       (String.concat "" (List.map (fun i -> " " ^ string_of_int (int_of_nat i)) (if alive s then [] else heap s)))
-      (String.concat "" (List.map (fun i -> " v" ^ string_of_int (int_of_nat i)) (if alive s then [] else vheap !st)))
+      (String.concat "" (List.map (fun i -> " v" ^ string_of_int (int_of_nat i)) (if alive s then [] else vheap (xs !st))))
+      (String.concat "" (List.map (fun i -> " p" ^ string_of_int (int_of_nat i)) (if alive s then [] else pheap !st)))
       !illegal in
   (try
     while true do
       let line = input_line stdin in
-      if line = "====" then (finish (); st := xinit true false; illegal := 0)
+      if line = "====" then (finish (); st := pinit true false; illegal := 0)
       else if line <> "" && line.[0] <> '#' then begin
         let toks = List.filter (fun x -> x <> "") (String.split_on_char ' ' line) in
         let n s = nat_of_int (int_of_string s) in
         let ops = match toks with
-          | ["R"; o; t] -> st := xinit (t = "1") (o = "0"); []
-          | "S" :: id :: _ -> [XCore (ONewObst (n id))]
-          | "J" :: id :: _ -> [XCore (ONewObst (n id))]
-          | "C" :: id :: r -> let (e1, r) = parse_end r in let (e2, _) = parse_end r in [XCore (ONewConn (n id, e1, e2))]
-          | "E" :: id :: w :: r -> let (e, _) = parse_end r in [XCore (OSetEnd (n id, (w = "1"), e))]
-          | "M" :: id :: _ -> [XCore (OMove (n id))]
-          | ["D"; id] | ["DJ"; id] -> [XCore (ODelObst (n id))]
-          | ["X"; id] -> [XCore (ODelConn (n id))]
-          | "K" :: id :: k :: _ -> [XSetCP (n id, n k)]
+          | ["R"; o; t] -> st := pinit (t = "1") (o = "0"); []
+          | ["S"; id; _; _; _; _; np] ->
+              let i = int_of_string id in
+              [PX (XCore (ONewObst (n id))); PNewPin (n id, nat_of_int (2 * i))]
+              @ (if int_of_string np >= 2 then [PNewPin (n id, nat_of_int (2 * i + 1))] else [])
+          | "J" :: id :: _ -> [PX (XCore (ONewObst (n id))); PNewPin (n id, nat_of_int (2 * int_of_string id))]
+          | "N" :: obj :: pid :: _ -> [PNewPin (n obj, n pid)]
+          | ["XN"; pid] -> [PDelPin (n pid)]
+          | "C" :: id :: r -> let (e1, r) = parse_end r in let (e2, _) = parse_end r in [PX (XCore (ONewConn (n id, e1, e2)))]
+          | "E" :: id :: w :: r -> let (e, _) = parse_end r in [PX (XCore (OSetEnd (n id, (w = "1"), e)))]
+          | "M" :: id :: _ -> [PX (XCore (OMove (n id)))]
+          | ["D"; id] | ["DJ"; id] -> [PX (XCore (ODelObst (n id)))]
+          | ["X"; id] -> [PX (XCore (ODelConn (n id)))]
+          | "K" :: id :: k :: _ -> [PX (XSetCP (n id, n k))]
           | ["I"; _] -> []   (* makePathInvalid: no ownership effect *)
-          | ["T"] -> [XCore OProcess]
-          | ["Q"] -> [XCore ODestroy]
+          | ["T"] -> [PX (XCore OProcess)]
+          | ["Q"] -> [PX (XCore ODestroy)]
           | _ -> failwith ("bad line: " ^ line) in
-        List.iter (fun o -> if not (xlegal !st o) then incr illegal; st := xstep fk fl fc !st o) ops;
+        List.iter (fun o -> if not (plegal !st o) then incr illegal; st := pstep fk fl fc fp !st o) ops;
         dump line !st
       end
     done
